@@ -942,7 +942,8 @@ func (eval Evaluator) MulThenAdd(op0 *rlwe.Ciphertext, op1 rlwe.Operand, opOut *
 			return fmt.Errorf("cannot MulThenAdd: %w", err)
 		}
 
-		opOut.Resize(op0.Degree(), opOut.Level())
+		// The accumulator keeps its degree if it is larger than the one of op0
+		opOut.Resize(utils.Max(op0.Degree(), opOut.Degree()), level)
 
 		// Gets the ring at the minimum level
 		ringQ := eval.GetParameters().RingQ().AtLevel(level)
@@ -991,7 +992,8 @@ func (eval Evaluator) MulThenAdd(op0 *rlwe.Ciphertext, op1 rlwe.Operand, opOut *
 			return fmt.Errorf("cannot MulThenAdd: %w", err)
 		}
 
-		opOut.Resize(op0.Degree(), opOut.Level())
+		// The accumulator keeps its degree if it is larger than the one of op0
+		opOut.Resize(utils.Max(op0.Degree(), opOut.Degree()), level)
 
 		// Gets the ring at the target level
 		ringQ := eval.GetParameters().RingQ().AtLevel(level)
